@@ -100,6 +100,42 @@ fn describe_status(st: &std::process::ExitStatus) -> String {
     }
 }
 
+/// CPU time (user + system, clock ticks) of a process (all its threads), from /proc
+fn cpu_ticks(pid: u32) -> Option<u64> {
+    let txt = std::fs::read_to_string(format!("/proc/{}/stat", pid)).ok()?;
+    let rest = &txt[txt.rfind(')')? + 2..];
+    let f: Vec<&str> = rest.split(' ').collect();
+    Some(f.get(11)?.parse::<u64>().ok()? + f.get(12)?.parse::<u64>().ok()?)
+}
+
+/// Run a child to completion, but kill it when it has stopped making progress: no CPU time consumed for STALL_S
+/// seconds means it sits in a deadlock (a corrupted heap taking the allocator lock with it, a lost wake-up, ...).
+/// -> (exit status description, success); a stalled child is reported as "hang".
+fn run_watched(cmd: &mut Command) -> (String, bool) {
+    const STALL_S: u64 = 25;
+    let mut child = cmd.spawn().expect("spawn child");
+    let pid = child.id();
+    let mut last = cpu_ticks(pid).unwrap_or(0);
+    let mut last_change = std::time::Instant::now();
+    loop {
+        match child.try_wait() {
+            Ok(Some(st)) => return (describe_status(&st), st.success()),
+            Ok(None) => {}
+            Err(_) => return ("wait_failed".to_string(), false),
+        }
+        std::thread::sleep(std::time::Duration::from_millis(200));
+        let now = cpu_ticks(pid).unwrap_or(last);
+        if now != last {
+            last = now;
+            last_change = std::time::Instant::now();
+        } else if last_change.elapsed().as_secs() >= STALL_S {
+            let _ = child.kill();
+            let _ = child.wait();
+            return ("hang".to_string(), false);
+        }
+    }
+}
+
 pub fn run_main(def: CheckDef) -> ! {
     let args: Vec<String> = std::env::args().collect();
     let tier = match arg_val(&args, "--tier").as_deref() {
@@ -244,12 +280,12 @@ pub fn run_main(def: CheckDef) -> ! {
         let _ = std::fs::remove_file(format!("{}.partial", out_path));
         let mut cmd = Command::new(&exe);
         cmd.args(&args[1..]).arg("--child").arg("--journal-dir").arg(&jd).arg("--skip-file").arg(&skip_file).arg("--out").arg(&out_path);
-        let st = cmd.status().expect("spawn child");
-        if st.success() && std::path::Path::new(&out_path).exists() {
+        let (st_desc, st_ok) = run_watched(&mut cmd);
+        if st_ok && std::path::Path::new(&out_path).exists() {
             code = 0;
             break;
         }
-        eprintln!("[driver] child ended with {}; attributing", describe_status(&st));
+        eprintln!("[driver] child ended with {}; attributing", st_desc);
         let cases = read_journal(&jd);
         let mut found = false;
         for (i, line) in cases.iter().enumerate() {
@@ -257,8 +293,8 @@ pub fn run_main(def: CheckDef) -> ! {
             std::fs::write(&f, line).unwrap();
             let mut sts = Vec::new();
             for _ in 0..2 {
-                let st = Command::new(&exe).arg("--single").arg(&f).stdout(std::process::Stdio::null()).stderr(std::process::Stdio::null()).status().expect("spawn single");
-                sts.push(describe_status(&st));
+                let (d, _) = run_watched(Command::new(&exe).arg("--single").arg(&f).stdout(std::process::Stdio::null()).stderr(std::process::Stdio::null()));
+                sts.push(d);
             }
             if sts[0] == sts[1] && sts[0] != "exit0" {
                 let v: Value = serde_json::from_str(line).unwrap_or(Value::Null);
@@ -269,7 +305,7 @@ pub fn run_main(def: CheckDef) -> ! {
             }
         }
         if !found {
-            eprintln!("[driver] child death ({}) not attributable to a reproducible case: machinery failure", describe_status(&st));
+            eprintln!("[driver] child death ({}) not attributable to a reproducible case: machinery failure", st_desc);
             code = 2;
             break;
         }
